@@ -133,6 +133,45 @@ def rule_MP2(rep, prog, k):
                 "dispatch_once while the initialiser may still be running", sample={"exit_paths": len(exits)})
 
 
+def rule_OD4(rep, prog, k):
+    rid = rep.rule("C09-OD4", "a waiter goes to sleep comparing the gate with the value IT published: the compare value handed to the futex wait in "
+                   "_dispatch_once_wait is the value of this thread's own compare-exchange (what it observed, with the waiters bit) - never a fresh read of the "
+                   "gate: if the initialiser completed in between, a re-read yields DONE and the waiter sleeps on DONE after the only wake-up has gone", floor=1)
+    fn = prog.fn("_dispatch_once_wait")
+    rep.saw(fn)
+    waits = calls_named(fn, ("_dispatch_futex_wait", "_dispatch_unfair_lock_wait"))
+    cxs = [c for c in fn.all_insts() if c.op == "cmpxchg" and "dgo_once" in prog.fields(c)]
+    if not waits or not cxs:
+        rep.unknown(rid, "anchor vanished in _dispatch_once_wait (waits=%d, compare-exchanges=%d)" % (len(waits), len(cxs)))
+        return
+    for w in waits:
+        seen, work, fresh, own = set(), [w.ops[1]], [], False
+        while work:
+            o = work.pop()
+            i = fn.inst(o) if o[0] == "i" else None
+            if i is None or i.id in seen:
+                continue
+            seen.add(i.id)
+            if i.op == "load" and "dgo_once" in prog.fields(i):
+                # the initial read that seeds the compare-exchange loop is fine; a read made AFTER the compare-exchange is a fresh one
+                if any(fn.inst_reaches(c, i, avoid_insts=[w]) for c in cxs):
+                    fresh.append(i)
+                continue
+            if any(tuple(o[:2]) == tuple(c.ops[2][:2]) or tuple(o[:2]) == tuple(c.ops[1][:2]) for c in cxs):
+                own = True
+            if i.op in ("trunc", "zext", "or", "and", "select", "bitcast"):
+                work += [x for x in (i.ops[1:] if i.op == "select" else i.ops) if isinstance(x, (list, tuple)) and x and x[0] == "i"]
+            elif i.op == "phi":
+                work += [v for v, frm in i.ops]
+            elif i.op == "extractvalue":
+                own = own or fn.inst(i.ops[0]) in cxs
+        rep.require(rid, own and not fresh, w.loc, fn.name, "once-wait-sleeps-on-reread-value",
+                    "_dispatch_once_wait hands the futex wait a compare value that %s: the waiter must sleep on exactly the word it installed / observed with its "
+                    "compare-exchange, so that any later change of the gate (DONE) makes the kernel refuse to sleep"
+                    % ("is re-read from the gate after the compare-exchange (at %s)" % fresh[0].loc if fresh else "does not come from its compare-exchange"),
+                    sample={"wait": w.loc})
+
+
 def rule_HDR(rep, srcdir):
     rid = rep.rule("C09-HDR3", "public inline fast paths (_dispatch_once, _dispatch_once_f in dispatch/once.h): dispatch_once[_f] is skipped only when the "
                    "loaded predicate equals ~0", floor=2)
@@ -169,6 +208,8 @@ def run(rep, tier="quick", srcdir=None, only=None):
         rule_TR1(rep, prog, ex, k)
     if want("C09-MP2"):
         rule_MP2(rep, prog, k)
+    if want("C09-OD4"):
+        rule_OD4(rep, prog, k)
     if want("C09-HDR3"):
         rule_HDR(rep, srcdir)
     if want("C09-FK"):
